@@ -115,7 +115,9 @@ class CompileHarness(_CRevBase):
             model = crm.CRevisionModel(ocf, [])
             present = []
             for op, i in self.script:
-                if op == "add":
+                if op == "compile":
+                    model.to_compilation()          # result discarded: only its side effects matter
+                elif op == "add":
                     model.add_conditional(conds[i - 1])
                     present.append(i)
                 else:
@@ -184,7 +186,9 @@ if st["script"] is None:
 else:
     m = CRevisionModel(ocf, []); present = []
     for op, i in st["script"]:
-        if op == "add":
+        if op == "compile":
+            m.to_compilation()
+        elif op == "add":
             m.add_conditional(cs[i - 1]); present.append(i)
         else:
             m.remove_conditional(i)
@@ -290,11 +294,22 @@ class ReviseHarness(_CRevBase):
                             "gamma- vector %s is not Pareto-minimal" % gm))
         return out
 
+    KNOWN = ("C19-fixed-gamma-not-bound-in-minima",
+             "c_revision with fixed_gamma_minus / fixed_gamma_plus: the fixed value replaces the parameter only in its own conditional's constraint, the other conditionals' minima keep the free symbol, so the returned parameters need not make the revised ranking accept the conditionals (e.g. all-zero prior over {a,b}, [(a|b),(b|!a)], fixed_gamma_minus={1: 2} -> gamma-_2 = 0)")
+    known_active = False
+
+    def known_preds(self):
+        return [(self.KNOWN[0], self.KNOWN[1], None)] if self.known_active and (self.fm or self.fp) else []
+
     def on_path(self, eng, res):
         self.counts[res[0]] = self.counts.get(res[0], 0) + 1
         for cond, msg in self.checks(res):
             if eng.vc(cond) is not None:
-                self.record(eng, res, cond, msg)
+                if self.known_active and (self.fm or self.fp) and msg.startswith("the revised ranking with"):
+                    k = "known:" + self.KNOWN[0]
+                    self.witness[k] = self.witness.get(k, 0) + 1
+                else:
+                    self.record(eng, res, cond, msg)
                 break
         self.sample(eng, res)
 
